@@ -20,6 +20,44 @@ pub enum Seed {
     /// hand-built, spec-conforming file: one cloud with a 1-bit record followed by `consts` constant records
     /// (minimum = maximum) and ONE data packet holding `points` points
     ConstHeavy { consts: u16, points: u32 },
+    /// hand-built file: a prototype of `records` full-range integer records and a section that consists of `packets`
+    /// ignored packets of the minimum size (4 bytes) and no data packet
+    TinyPackets { records: u32, packets: u32 },
+}
+
+/// See `Seed::TinyPackets`.
+pub fn tiny_packets_file(records: usize, packets: usize) -> Vec<u8> {
+    let section_log = 48u64;
+    let packet_log = section_log + 32;
+    let body_len = packets * 4;
+    let xml_log = packet_log + body_len as u64;
+    let mut xml = String::from("<?xml version=\"1.0\" encoding=\"UTF-8\"?>\n<e57Root type=\"Structure\" xmlns=\"http://www.astm.org/COMMIT/E57/2010-e57-v1.0\" xmlns:k=\"urn:verif:tiny\">\n<formatName type=\"String\"><![CDATA[ASTM E57 3D Imaging Data File]]></formatName>\n<guid type=\"String\"><![CDATA[{tiny-packets}]]></guid>\n<versionMajor type=\"Integer\">1</versionMajor>\n<versionMinor type=\"Integer\">0</versionMinor>\n<data3D type=\"Vector\" allowHeterogeneousChildren=\"1\">\n<vectorChild type=\"Structure\">\n<guid type=\"String\"><![CDATA[{cloud}]]></guid>\n");
+    xml.push_str(&format!("<points type=\"CompressedVector\" fileOffset=\"{}\" recordCount=\"5\">\n<prototype type=\"Structure\">\n", pages::log_to_phys(section_log)));
+    for i in 0..records {
+        xml.push_str(&format!("<k:r{i} type=\"Integer\"/>\n"));
+    }
+    xml.push_str("</prototype>\n<codecs type=\"Vector\" allowHeterogeneousChildren=\"1\"/>\n</points>\n</vectorChild>\n</data3D>\n<images2D type=\"Vector\" allowHeterogeneousChildren=\"1\"/>\n</e57Root>\n");
+    let total_log = xml_log + xml.len() as u64;
+    let pages_n = (total_log + 1019) / 1020;
+    let mut log = vec![0u8; 48];
+    log[0..8].copy_from_slice(b"ASTM-E57");
+    log[8..12].copy_from_slice(&1u32.to_le_bytes());
+    log[16..24].copy_from_slice(&(pages_n * 1024).to_le_bytes());
+    log[24..32].copy_from_slice(&pages::log_to_phys(xml_log).to_le_bytes());
+    log[32..40].copy_from_slice(&(xml.len() as u64).to_le_bytes());
+    log[40..48].copy_from_slice(&1024u64.to_le_bytes());
+    let mut sec = vec![0u8; 32];
+    sec[0] = 1;
+    sec[8..16].copy_from_slice(&(32 + body_len as u64).to_le_bytes());
+    sec[16..24].copy_from_slice(&pages::log_to_phys(packet_log).to_le_bytes());
+    log.extend_from_slice(&sec);
+    log.reserve(body_len + xml.len());
+    for _ in 0..packets {
+        // ignored packet: type 2, reserved 0, length - 1 = 3
+        log.extend_from_slice(&[2, 0, 3, 0]);
+    }
+    log.extend_from_slice(xml.as_bytes());
+    pages::page(&log)
 }
 
 /// See `Seed::ConstHeavy`.
@@ -139,6 +177,7 @@ pub fn seed_bytes(s: &Seed) -> Result<Vec<u8>, String> {
         Seed::Encoded { scene, layout } => encode(&build_scene(scene), layout).map(|e| e.bytes),
         Seed::Bundled(n) => crate::preflight::bundled(n),
         Seed::ConstHeavy { consts, points } => Ok(const_heavy_file(*consts as usize, (*points as usize).min(440_000))),
+        Seed::TinyPackets { records, packets } => Ok(tiny_packets_file((*records as usize).min(30_000), (*packets as usize).min(8_000_000))),
     }
 }
 
@@ -681,7 +720,7 @@ fn apply_mut(img: &mut Img, m: &Mut) {
 /// Apply a mutation script; the result need not be a valid file.
 pub fn mutate(sc: &Script) -> Result<Vec<u8>, String> {
     let seed = seed_bytes(&sc.seed)?;
-    if matches!(sc.seed, Seed::ConstHeavy { .. }) {
+    if matches!(sc.seed, Seed::ConstHeavy { .. } | Seed::TinyPackets { .. }) {
         // used as it is (decoding it with the reference decoder would itself need gigabytes)
         return Ok(seed);
     }
